@@ -703,7 +703,7 @@ def matches(ex, actual, want):
     if k == "err_kind":
         if name != "Err":
             return z3.BoolVal(False)
-        return is_variant(ex, f[0], want[1])
+        return err_class_is(ex, f[0], want[1])
     if k == "list":
         if name != "List" or not isinstance(f[0].length, int) or f[0].length != len(want[1]):
             return z3.BoolVal(False)
@@ -860,6 +860,18 @@ def vm_scenario(ex):
     return build
 
 
+ABSENT = ("Binding", "Attribute")
+
+
+def err_class_is(ex, e, kind):
+    """the properties distinguish 'absent data' failures (unbound name, absent field) from all
+    others, and nothing finer: Binding and Attribute are matched exactly, any other expected kind
+    stands for 'some failure that is not an absent-data failure'"""
+    if kind in ABSENT:
+        return is_variant(ex, e, kind)
+    return z3.Not(z3.Or([is_variant(ex, e, k) for k in ABSENT]))
+
+
 def key_eq(ex, a, b):
     """uninterpreted equality of two key texts (identified by their vids)"""
     if a == b:
@@ -950,7 +962,7 @@ def check_vm(res, V):
             if out[2] is not None:
                 V.check(ex, "run fails with the operand's own error", e.vid == out[2], assumed, detail=lambda: f"VM: {ret!r}", scenario=scen, prefer=pref)
             elif out[1] is not None:
-                V.check(ex, f"run fails with a {out[1]} error", is_variant(ex, e, out[1]), assumed, detail=lambda: f"VM: {ret!r}", scenario=scen, prefer=pref)
+                V.check(ex, f"run fails with a {out[1] if out[1] in ABSENT else 'non-absent-data'} error", err_class_is(ex, e, out[1]), assumed, detail=lambda: f"VM: {ret!r}", scenario=scen, prefer=pref)
             else:
                 V.check(ex, "run fails", True, assumed, scenario=scen, prefer=pref)
         # the depth counter is released on every exit
